@@ -193,6 +193,12 @@ func (fv *FuncVC) run() {
 	// global facts
 	fv.assume(Term{S: byteHeapFact(fv.heap(st, "M", SInt)), Sort: SBool})
 
+	// ghost initialisation at entry
+	for _, c := range fc.Entry {
+		genv := fv.newEnv(st, st)
+		v := genv.expr(c.E, c.Pos)
+		st.ghost[c.Name] = v
+	}
 	// requires
 	env := fv.newEnv(st, st)
 	for _, c := range fc.Requires {
@@ -271,7 +277,10 @@ func (fv *FuncVC) blockOrder() []*ssa.BasicBlock {
 	var dfs func(b *ssa.BasicBlock)
 	dfs = func(b *ssa.BasicBlock) {
 		seen[b] = true
-		for _, s := range b.Succs {
+		// successors in reverse order: loop bodies (first successor of a header) then come
+		// before loop exits in the reverse postorder
+		for k := len(b.Succs) - 1; k >= 0; k-- {
+			s := b.Succs[k]
 			if seen[s] || fv.isBackEdge(b, s) {
 				continue
 			}
@@ -297,6 +306,7 @@ func (fv *FuncVC) edge(pred, b *ssa.BasicBlock) Term {
 
 func (fv *FuncVC) processBlock(b *ssa.BasicBlock) {
 	fn := fv.Fn
+	fv.curBlock = b
 	// merge predecessors
 	var preds []*ssa.BasicBlock
 	for _, p := range b.Preds {
@@ -682,6 +692,15 @@ func (fv *FuncVC) checkFrame(env *Env, pos token.Pos) {
 	byHeap, _ := fv.clausesByHeap(envPre, fc.Modifies)
 	for _, g := range sortedKeys(fv.cur.ghost) {
 		if strings.HasPrefix(g, "$iter") {
+			continue
+		}
+		local := false
+		for _, c := range fc.Entry {
+			if c.Name == g {
+				local = true // function-local ghost (initialised at entry)
+			}
+		}
+		if local {
 			continue
 		}
 		cur := fv.cur.ghost[g]
